@@ -127,6 +127,24 @@ def run(model, res, tier):
     H.safely(res, 'R4', 'r4', _r4, model, res, c)
     H.safely(res, 'R5', 'r5', _r5, model, res, c)
     H.safely(res, 'R6', 'r6', _r6, model, res, c)
+    res.rule('R7', 'DAYS(end, start) is serial(end) - serial(start) with the time of day as its fraction, and a date against an array acts '
+             'element by element like the scalar operation (shared with C14.R11 and C06.R6)')
+
+    def _days_rule(tmp):
+        from . import c14
+        from .c01 import error_singletons
+        em_, singles_ = error_singletons(model)
+        c14._days(model, tmp, H.date_opaque(model), dict((msg, n_) for n_, msg in singles_.items()))
+
+    def _array_rule(tmp):
+        from . import c06
+        from .. import roles
+        from .c01 import error_singletons
+        em_, singles_ = error_singletons(model)
+        g_ = c.grammar
+        c06._arrays(model, tmp, c, g_, roles.binary_actions(g_), H.date_opaque(model), dict((msg, n_) for n_, msg in singles_.items()))
+    H.borrow(res, 'R7', 'DAYS', _days_rule)
+    H.borrow(res, 'R7', 'arrays against a date', _array_rule)
     keys = [(um.name, um.functions.key_of('serialize_date')), (um.name, um.functions.key_of('parse_date'))]
     region = c.cg.reachable(keys)
     purity.check_region(res, c, 'R3', None, region, 'a date converter')
